@@ -21,6 +21,10 @@ MCDefect == [p \in MCPairs |-> -9999]
 MCBound == [p \in MCPairs |-> -110]
 
 NoHistView == <<cache, last>>
+\* exhaustive verification runs use several workers: TLC's parallel breadth-first search does not reach a
+\* state first through its SHORTEST history, so with a history-length constraint the history length must be
+\* part of the state identity (otherwise which successors are cut off depends on the schedule)
+DepthView == <<NoHistView, Len(hist)>>
 EmitState == (Len(hist) <= MaxLen) => PrintT(ToJson(hist))
 EmitFollow == (hist = <<>>) => PrintT(ToJson([follow |-> [s \in Forms |-> [t \in Forms |-> Follow(s, t)]],
                                                dist |-> [s \in Forms |-> [t \in Forms |-> Dist(s, t)]]]))
